@@ -2,6 +2,8 @@ package main
 
 import (
 	"encoding/binary"
+	"encoding/hex"
+	"encoding/json"
 	"errors"
 	"fmt"
 	"io"
@@ -31,6 +33,21 @@ const (
 
 	scsvFallback = 0x5600
 )
+
+// hexBytes is a byte string that is hex in JSON (witnesses stay readable and
+// replay exactly).
+type hexBytes []byte
+
+func (h hexBytes) MarshalJSON() ([]byte, error) { return json.Marshal(hex.EncodeToString(h)) }
+func (h *hexBytes) UnmarshalJSON(b []byte) error {
+	var s string
+	if err := json.Unmarshal(b, &s); err != nil {
+		return err
+	}
+	d, err := hex.DecodeString(s)
+	*h = d
+	return err
+}
 
 type rawRec struct {
 	Typ  byte
@@ -74,17 +91,17 @@ func readRawRecord(r io.Reader) (rawRec, error) {
 type helloSpec struct {
 	RecVer    uint16   `json:"rec_ver"` // record-layer version
 	Vers      uint16   `json:"vers"`    // client_version
-	SessionID []byte   `json:"session_id,omitempty"`
+	SessionID hexBytes `json:"session_id,omitempty"`
 	Suites    []uint16 `json:"suites"`
 	SNI       string   `json:"sni,omitempty"`
 	Curves    []uint16 `json:"curves,omitempty"`
 	Points    bool     `json:"points,omitempty"`
 	SigAlgs   bool     `json:"sigalgs,omitempty"`
 	TicketExt bool     `json:"ticket_ext,omitempty"` // send the SessionTicket extension
-	Ticket    []byte   `json:"ticket,omitempty"`     // its content (may be empty)
+	Ticket    hexBytes `json:"ticket,omitempty"`     // its content (may be empty)
 	ALPN      []string `json:"alpn,omitempty"`
 	NoExt     bool     `json:"no_ext,omitempty"` // omit the extensions block entirely
-	Random    []byte   `json:"random,omitempty"`
+	Random    hexBytes `json:"random,omitempty"`
 }
 
 func put16(b []byte, v int) []byte { return append(b, byte(v>>8), byte(v)) }
@@ -174,17 +191,17 @@ type srvFlight struct {
 	GotHello    bool     `json:"got_hello"`
 	Vers        uint16   `json:"vers"`
 	Suite       uint16   `json:"suite"`
-	SessionID   []byte   `json:"session_id,omitempty"`
+	SessionID   hexBytes `json:"session_id,omitempty"`
 	ALPN        string   `json:"alpn,omitempty"`
 	HasALPN     bool     `json:"has_alpn,omitempty"`
 	TicketExt   bool     `json:"ticket_ext,omitempty"`
-	Msgs        []byte   `json:"msgs,omitempty"` // handshake message types seen in the clear, in order
+	Msgs        []int    `json:"msgs,omitempty"` // handshake message types seen in the clear, in order
 	SawCCS      bool     `json:"saw_ccs"`
 	Alert       bool     `json:"alert"`
 	AlertLevel  byte     `json:"alert_level,omitempty"`
 	AlertDesc   byte     `json:"alert_desc,omitempty"`
 	ParseErr    string   `json:"parse_err,omitempty"`
-	NewTicket   []byte   `json:"new_ticket,omitempty"`
+	NewTicket   hexBytes `json:"new_ticket,omitempty"`
 	RecVersions []uint16 `json:"-"`
 }
 
@@ -295,7 +312,7 @@ func parseServerFlight(stream []byte) *srvFlight {
 				}
 				typ, body := hs[0], hs[4:4+n]
 				hs = hs[4+n:]
-				f.Msgs = append(f.Msgs, typ)
+				f.Msgs = append(f.Msgs, int(typ))
 				switch typ {
 				case hsServerHello:
 					if err := parseServerHello(body, f); err != nil {
